@@ -5,8 +5,12 @@ INNER_OPEN = {
     "while": "var j=0; while(j<2){ j++; ", "dowhile": "var j=0; do { j++; ", "for": "for (var j=1;j<3;j++){ ",
     "forin": "var j=0; for (var k in {a:1,b:2,c:3}){ j++; ", "forof": "var j=0; for (var v of [7,8,9]){ j++; ",
     "switch": "var j=1; switch(j){ case 0: acc+=1; case 1: ", "block": "var j=1; blk: { ", "none": "var j=1; { ",
+    # every update form on every storage class a name can have (cv: global, or a variable of the enclosing function in the
+    # places closure_loop / func_loop; lv: declared here; ob.p / ar[0]: member and element targets)
+    "updates": ("var j=0; var lv=0; while(j<2){ j++; ++cv; cv++; --cv; cv--; cv+=1; cv-=1; ++lv; lv++; --lv; lv--; lv+=1; "
+                "++ob.p; ob.p++; --ob.p; ob.p--; ob.p+=1; ++ar[0]; ar[0]++; --ar[0]; ar[0]--; ar[0]+=1; acc = acc + (++cv) - (cv--) + (lv++) - (--lv); "),
 }
-INNER_CLOSE = {"while": " acc+=1 }", "dowhile": " acc+=1 } while(j<2);", "for": " acc+=1 }", "forin": " acc+=1 }",
+INNER_CLOSE = {"updates": " acc+=1 }", "while": " acc+=1 }", "dowhile": " acc+=1 } while(j<2);", "for": " acc+=1 }", "forin": " acc+=1 }",
                "forof": " acc+=1 }", "switch": " acc+=2; break; default: acc+=3 }", "block": " acc+=1 }", "none": " acc+=1 }"}
 ENCL = {
     "none": ("", ""), "if": ("if (o<5) { ", " }"),
@@ -66,8 +70,15 @@ def render_body(b):
 
 def render_program(b, n):
     B = render_body(b)
-    pre = "function thrower(){ throw 4 } function id2(a,b){ return b } var acc=0; var sink=0; "
+    pre = "function thrower(){ throw 4 } function id2(a,b){ return b } var acc=0; var sink=0; var cv=0; var ob={p:0}; var ar=[0]; "
     p = b["place"]
+    if p in ("closure_loop", "func_loop"):
+        # the N rounds run INSIDE one activation (what a round leaves behind is not discarded by a return in between);
+        # closure_loop: cv belongs to the enclosing function and is reached through a closure slot
+        loop = "function(n){ for (var it=0; it<n; it++) { %s } return acc }" % B
+        if p == "closure_loop":
+            return pre + "var body = (function(){ var cv = 0; var keep = function(){ return cv }; return %s })(); sink = 1 + body(%d); acc" % (loop, n)
+        return pre + "var body = %s; sink = 1 + body(%d); acc" % (loop, n)
     if p.endswith("_catch_outside"):
         # the throw leaves the function that the native / call is running; the handler is in the iterating frame
         C = render_core(b)
